@@ -75,6 +75,8 @@ func TestVerifC17(t *testing.T) {
 		{Name: "p6", Shape: "two addresses, first outside my networks", Networks: c16Prefixes("10.0.1.2/24", "10.0.0.3/24")},
 		{Name: "p7", Shape: "unsafe network overlapping my overlay network", Networks: c16Prefixes("10.0.0.3/24"), Unsafe: c16Prefixes("10.0.0.0/30")},
 		{Name: "p8", Shape: "v6 only", Networks: c16Prefixes("fd00::2/64")},
+		{Name: "p9", Shape: "two addresses inside my network", Networks: c16Prefixes("10.0.0.2/24", "10.0.0.3/24")},
+		{Name: "p10", Shape: "unsafe network 0.0.0.0/0", Networks: c16Prefixes("10.0.0.3/24"), Unsafe: c16Prefixes("0.0.0.0/0")},
 	}
 	for i := range peers {
 		peers[i].Groups = []string{"g1"}
@@ -216,6 +218,19 @@ func TestVerifC17(t *testing.T) {
 		for i := range peers {
 			p := &peers[i]
 			for _, pr := range probes {
+				// was the tuple known before the call? (only used to name the path in a violation signature)
+				_, inCache := cache[pr.Pkt]
+				_, inTable := fw.Conntrack.Conns[pr.Pkt]
+				via := "tuple not tracked: rule path"
+				if inCache {
+					via = "tuple in the routine-local cache"
+				} else if inTable {
+					via = "tuple in the conntrack table"
+				}
+				hpath := "multi-address/unsafe HostInfo (networks table)"
+				if hosts[i].networks == nil {
+					hpath = "single-address HostInfo (fast path)"
+				}
 				err := fw.Drop(pr.Pkt, pr.Incoming, hosts[i], cp, cache)
 				r.evals++
 				rOK, lOK := c17Authentic(it.n, p, pr.Pkt)
@@ -234,11 +249,11 @@ func TestVerifC17(t *testing.T) {
 					r.pass++
 					r.shapePass[i]++
 					if !rOK {
-						c.Violation(fmt.Sprintf("Drop passes a packet whose remote address is not certified for the peer [peer: %s; state: %s]", p.Shape, it.st.Label),
+						c.Violation(fmt.Sprintf("Drop passes a packet whose remote address is not certified for the peer [%s; %s]", hpath, via),
 							c17Detail(it.n, ruleSets[it.rs].Label, it.st, p, pr, "remote", hosts[i]))
 					}
 					if !lOK {
-						c.Violation(fmt.Sprintf("Drop passes a packet whose local address is not the node's [state: %s]", it.st.Label),
+						c.Violation(fmt.Sprintf("Drop passes a packet whose local address is not the node's [%s]", via),
 							c17Detail(it.n, ruleSets[it.rs].Label, it.st, p, pr, "local", hosts[i]))
 					}
 				} else {
